@@ -41,6 +41,28 @@ class AwIter(object):  # __await__ returns a plain iterator: a non-frame leaf
         return s.it
 
 
+class FalsyAwaitable(object):
+    """A future-like leaf: it is its own __await__ iterator and is falsy while nobody has set it."""
+
+    def __init__(s):
+        s.n = 0
+
+    def __bool__(s):
+        return False
+
+    def __await__(s):
+        return s
+
+    def __iter__(s):
+        return s
+
+    def __next__(s):
+        s.n += 1
+        if s.n > 1:
+            raise StopIteration("done")
+        return "leaf"
+
+
 SRC = '''
 async def co_{i}(nxt, pre):
     if pre:
@@ -147,6 +169,9 @@ def build(kinds, end, outer, pre):
             def term():
                 yield "trap"
             inner = ch.reg(term())
+        elif end == "falsy":
+            ch.leaf = FalsyAwaitable()
+            inner = ch.leaf
         else:
             ch.leaf = iter(["leaf"])
             inner = ch.leaf
@@ -157,6 +182,10 @@ def build(kinds, end, outer, pre):
         return ch
     if end == "trap":
         inner = ch.reg(trap())
+    elif end == "falsy":
+        aw = FalsyAwaitable()
+        ch.leaf = aw
+        inner = aw
     else:
         aw = AwIter()
         ch.leaf = aw.it
@@ -196,11 +225,11 @@ def specs(maxlen):
     """All chain specs: (kinds, end, outer, pre)."""
     for L in range(0, maxlen + 1):
         for kinds in itertools.product(AW_KINDS, repeat=L):
-            for end in ("trap", "iter"):
+            for end in ("trap", "iter", "falsy"):
                 for outer in ("co", "gco"):
                     for pre in (False, True):
                         yield (list(kinds), end, outer, pre)
-        for end in ("trap", "iter"):
+        for end in ("trap", "iter", "falsy"):
             for pre in (False, True):
                 yield (["yf"] * L, end, "gen", pre)
 
